@@ -8,7 +8,8 @@ kind; missing / duplicate / misordered / unknown sections; command-specific shap
 wrong kind, duplicate commands and keys); deep nesting; huge scalars; many entries; several documents, empty
 documents, anchors / aliases / tags. Everything derives from the seed.
 """
-import hashlib, json, random
+import hashlib, json, random, sys
+sys.setrecursionlimit(20000)
 
 # ---------------------------------------------------------------- model helpers
 def S(x): return ("str", str(x))
@@ -35,10 +36,9 @@ def flow(n, rng):
         return "[" + ", ".join(flow(x, rng) for x in n[1]) + "]"
     parts = []
     for key, val in n[1]:
-        if key[0] == "str":
-            parts.append(json.dumps(key[1]) + ": " + flow(val, rng))
-        else:
-            parts.append("? " + flow(key, rng) + " : " + flow(val, rng))
+        # implicit keys (scalar or JSON-like flow collection, single line, < 1024 characters: emit() guarantees it);
+        # the vendored YAML parser does not accept the explicit `? key : value` form inside flow mappings
+        parts.append((json.dumps(key[1]) if key[0] == "str" else flow(key, rng)) + ": " + flow(val, rng))
     return "{" + ", ".join(parts) + "}"
 
 
@@ -65,8 +65,11 @@ def block(n, rng, ind=0):
         return [pad + "{}"]
     out = []
     for key, val in n[1]:
-        if key[0] == "str":
+        if key[0] == "str" and len(key[1]) <= 256:
             head = pad + json.dumps(key[1]) + ":"
+        elif key[0] == "str":          # an implicit key may not be longer than 1024 characters: explicit form
+            out.append(pad + "? " + json.dumps(key[1]))
+            head = pad + ":"
         else:
             out.append(pad + "?")
             out += block(key, rng, ind + 2)
@@ -79,8 +82,19 @@ def block(n, rng, ind=0):
     return out
 
 
+def _has_long_key(n):
+    if n[0] == "map":
+        return any((k[0] == "str" and len(k[1]) > 256) or (k[0] != "str" and len(flow(k, random.Random(0))) > 256) or _has_long_key(k) or _has_long_key(v)
+                   for k, v in n[1])
+    if n[0] == "seq":
+        return any(_has_long_key(x) for x in n[1])
+    return False
+
+
 def emit(n, rng, style=None):
     style = style or rng.choice(["flow", "block", "block"])
+    if style == "flow" and _has_long_key(n):
+        style = "block"
     if style == "flow":
         return flow(n, rng) + "\n"
     return "\n".join(block(n, rng)) + "\n"
